@@ -2,6 +2,7 @@ package main
 
 import (
 	"encoding/binary"
+	"encoding/hex"
 	"fmt"
 	"strings"
 	"time"
@@ -61,6 +62,19 @@ func (simpleEngine) Gen(prop string, seed uint64, tier string) *Spec {
 				ino = uint64(2 + rng.Intn(2)) // contention on the same files
 			}
 			op := Op{X: int64(ino)}
+			if rng.Chance(0.08) {
+				// a handle of arbitrary length: shorter than an inode number, or longer than usual
+				l := []int{0, 1, 4, 7, 8, 9, 12, 24, 64}[rng.Intn(9)]
+				b := make([]byte, l)
+				for j := range b {
+					b[j] = byte(rng.Uint64())
+				}
+				if l >= 8 && rng.Chance(0.5) {
+					b[0], b[1], b[2], b[3], b[4], b[5], b[6], b[7] = byte(2+rng.Intn(2)), 0, 0, 0, 0, 0, 0, 0
+				}
+				op.HX = hex.EncodeToString(b)
+				op.Y = 1
+			}
 			off := sOffsets[rng.Intn(len(sOffsets))]
 			if rng.Chance(0.6) {
 				off = uint64(rng.Intn(4200))
@@ -107,6 +121,8 @@ func (simpleEngine) Gen(prop string, seed uint64, tier string) *Spec {
 
 type sIn struct {
 	K       string
+	FH      string // explicit handle bytes (when HasFH)
+	HasFH   bool
 	Ino     uint64
 	Off     uint64
 	Cnt     uint64
@@ -306,6 +322,9 @@ type sRec struct {
 func simpleCall(nfs *simple.Nfs, in sIn) sOut {
 	var out sOut
 	fh := simpleFh(in.Ino)
+	if in.HasFH {
+		fh = nfstypes.Nfs_fh3{Data: []byte(in.FH)}
+	}
 	switch in.K {
 	case "getattr":
 		r := nfs.NFSPROC3_GETATTR(nfstypes.GETATTR3args{Object: fh})
@@ -366,6 +385,15 @@ func (simpleEngine) Exec(spec *Spec) *Result {
 				defer wg.Done()
 				for i, op := range ops {
 					in := sIn{K: op.K, Ino: uint64(op.X), Off: op.Off, Cnt: op.Cnt}
+					if op.Y == 1 {
+						b, _ := hex.DecodeString(op.HX)
+						in.FH, in.HasFH = string(b), true
+						// the inode number such a handle denotes: its first 8 bytes; none if shorter
+						in.Ino = 0
+						if len(b) >= 8 {
+							in.Ino = binary.LittleEndian.Uint64(b)
+						}
+					}
 					switch op.K {
 					case "write":
 						in.Data = patData(op.Pat, 0, op.Len)
